@@ -107,6 +107,10 @@ package soyjs
 //@   preserves F!github.com/robfig/soy/ast.* F!github.com/robfig/soy/template.* E!Iface E!Str E!Int:uint8 E!Int:*github.com/robfig/soy/ast.*
 //@   requires[identifier;C14] jsok(varname)
 //@   ensures[generated-name;C14] jsok(result)
+//@   ghost cnt string = ""
+//@   at call strconv.Itoa#0 after set cnt = res
+//@   ensures[a-template-variable-is-never-emitted-under-its-bare-soy-name;C14] len(result) == len(varname) + len(cnt) && len(cnt) >= 1
+//@   at call mapupdate#0 assert[the-soy-name-is-bound-to-the-generated-name;C14] same(key, varname)
 //@ func (*scope).pushForRange
 //@   props C14 C09 C13
 //@   nosafety
